@@ -3,6 +3,8 @@ package main
 import (
 	"fmt"
 	"go/types"
+	"sort"
+	"strings"
 
 	"golang.org/x/tools/go/ssa"
 )
@@ -85,6 +87,21 @@ func (r *Run) makeMap(st *State, fr *Frame, x *ssa.MakeMap) Val {
 		}
 	}
 	st.Fresh = append(st.Fresh, m)
+	// a newly made map is not yet stored anywhere: it differs from every map held as a value of another map
+	var rns []string
+	for rn := range e.regions {
+		rns = append(rns, rn)
+	}
+	sort.Strings(rns)
+	for _, rn := range rns {
+		rm := e.regions[rn]
+		if strings.HasPrefix(rn, "map:") && strings.HasSuffix(rn, ".val") && rm.Res == SRef && len(rm.Args) == 2 {
+			if cur, ok := st.Heap[rn]; ok {
+				a, b := T{"m!q", rm.Args[0]}, T{"k!q", rm.Args[1]}
+				st.assume(Forall([]T{a, b}, nil, Not(Eq(App(SRef, cur, a, b), m))))
+			}
+		}
+	}
 	// empty: has(m, k) = false for all k, len = 0
 	e.region(st, ml.key+".has", []Sort{SRef, ml.ksort}, SBool)
 	k := T{"k!", ml.ksort}
@@ -259,7 +276,7 @@ func (r *Run) next(st *State, fr *Frame, x *ssa.Next) Val {
 	ok := And(App(SBool, "<=", IntLit(0), i), App(SBool, "<", i, ln))
 	k := App(it.ML.ksort, it.RKey, i)
 	v := e.mapVal(st, it.ML, it.M, k)
-	st.Cells[it.Cell] = App(SInt, "+", i, IntLit(1))
+	st.Cells[it.Cell] = Ite(ok, App(SInt, "+", i, IntLit(1)), i) // counts the keys visited: stays at len once exhausted
 	return &TupleV{V: []Val{ok, r.keyVal(k, tup.At(1).Type()), v}}
 }
 
